@@ -112,6 +112,10 @@ def run(rep, tier, seed):
     lf.run_cases(lr, extra_requests=lambda c: ["cert lr-total"])
     lf.add_histories(rng, glr)
     lf.run_cases(glr, model=False)
+    # GLR on a long, highly ambiguous input is polynomially slow, not hanging: re-run every timeout outside the known
+    # classes alone with a 60 s budget (LR timeouts are compared with the model's own fuel outcome instead)
+    slow = lf.confirm_timeouts(glr, skip=lambda c, k: known_class(c, k, "timeout") is not None)
+    rep.counters["timeouts_that_were_only_slow(3s watchdog, finished within 60s)"] = slow
     check(rep, lr, glr, proofs_ok)
 
 
